@@ -19,6 +19,7 @@ pub mod c14;
 pub mod c15;
 pub mod c16;
 pub mod c17;
+pub mod mt;
 pub mod c08;
 pub mod script;
 
@@ -137,9 +138,15 @@ pub fn walk_world(rep: &mut Rep, name: &str, walks: u64, steps: usize, mk: &dyn 
         let seed = rep.seed.wrapping_mul(1_000_003).wrapping_add(k);
         let mut rng = crate::sim::Rng::new(seed);
         let mut w = mk(seed);
+        // every second walk runs over a hostile transport: tiny reads, trickled arrival, partial or pending writes.
+        // (the plan set by the caller, if any, is kept)
+        if w.sim.writer.0.borrow().plan == crate::sim::WritePlan::All {
+            apply_transport_variant(&mut w, k);
+        }
         let acts = script::run_walk(&mut w, alpha, &mut rng, steps);
         rep.add("evaluations", 1);
         rep.add("random_walks", 1);
+        rep.add(&format!("random_walks_transport_variant_{}", k % 8), 1);
         rep.add("random_walk_actions", acts.len() as i64);
         rep.distinct(&w.shape());
         let nv = harvest(rep, &mut w, &id);
@@ -147,5 +154,20 @@ pub fn walk_world(rep: &mut Rep, name: &str, walks: u64, steps: usize, mk: &dyn 
             rep.sample(|| format!("{id} ({} actions) first 12: {:?}", acts.len(), &acts[..acts.len().min(12)]));
         }
         add_counters(rep, &w);
+    }
+}
+
+/// Transport plans for random walks: 0-3 friendly, 4 = 1-byte read caps, 5 = 2-byte trickled arrival,
+/// 6 = 1 byte per write call, 7 = Pending on every other write call + 1-byte read caps.
+pub fn apply_transport_variant(w: &mut World, k: u64) {
+    match k % 8 {
+        4 => w.sim.reader.0.borrow_mut().default_cap = 1,
+        5 => w.sim.trickle = Some(2),
+        6 => w.sim.writer.0.borrow_mut().plan = crate::sim::WritePlan::Max(1),
+        7 => {
+            w.sim.writer.0.borrow_mut().plan = crate::sim::WritePlan::MaxPendingAlt(3);
+            w.sim.reader.0.borrow_mut().default_cap = 1;
+        }
+        _ => {}
     }
 }
